@@ -320,6 +320,10 @@ func (eng *Engine) VerifyFunc(f *ssa.Function) (rep *FuncReport) {
 		for k, v := range vars {
 			rvars[k] = v
 		}
+		// captured variables are read in the final state (old(x) gives the entry value)
+		for i, fv := range f.FreeVars {
+			rvars[fv.Name()] = ex.derefBind(s, binds[i], fv.Type())
+		}
 		var res *Val
 		switch len(o.results) {
 		case 0:
